@@ -107,4 +107,111 @@ theorem slice_pop {cmp} (hs : SWO cmp) (s : List Int) (h : Heap cmp s) :
     obtain ⟨s', h1, h2, h3⟩ := slice_pop_big hs (a :: b :: t) h (by simp)
     exact ⟨s', _, h1, h2, h3, hmin⟩
 
+
+theorem slice_peek {cmp} (hs : SWO cmp) (s : List Int) (h : Heap cmp s) :
+    (s = [] → Slice.peek s = some (0, false)) ∧
+    (s ≠ [] → ∃ x, Slice.peek s = some (x, true) ∧ x ∈ s ∧ ∀ y ∈ s, cmp y x = false) := by
+  refine ⟨fun h0 => by subst h0; simp [Slice.peek], fun hne => ?_⟩
+  match s, hne with
+  | a :: t, _ =>
+    refine ⟨a, by simp [Slice.peek, nth]; omega, by simp, ?_⟩
+    intro y hy
+    obtain ⟨k, hk, rfl⟩ := mem_nthN hy
+    have := heap_root_min hs h k hk
+    simpa [nthN] using this
+
+/-- `Remove(i)` out of range: a no-op returning `(zero, false)`. -/
+theorem slice_remove_out (cmp : Int → Int → Bool) (s : List Int) (i : Int)
+    (hi : i < 0 ∨ (s.length : Int) ≤ i) : Slice.remove cmp s i = some (s, 0, false) := by
+  have : (i < 0 ∨ i ≥ (s.length : Int)) := by omega
+  simp [Slice.remove, this]
+
+/-- `Remove(i)` in range: removes exactly the element at `i`, keeps the heap order. -/
+theorem slice_remove_in {cmp} (hs : SWO cmp) (s : List Int) (i : Nat) (h : Heap cmp s) (hi : i < s.length) :
+    ∃ s', Slice.remove cmp s (i : Int) = some (s', nthN s i, true) ∧ Heap cmp s' ∧
+      (nthN s i :: s').Perm s := by
+  obtain ⟨n, hn⟩ : ∃ n, s.length = n + 1 := ⟨s.length - 1, by omega⟩
+  have hguard : ¬ ((i : Int) < 0 ∨ (i : Int) ≥ (s.length : Int)) := by omega
+  have e1 : ((s.length : Nat) : Int) - 1 = ((n : Nat) : Int) := by omega
+  by_cases hni : n = i
+  · -- last element: nothing to fix
+    subst hni
+    have : ¬ (((n : Nat) : Int) ≠ ((n : Nat) : Int)) := by simp
+    refine ⟨s.take n, ?_, heap_take (by omega) (fun c hc hc1 hlo => h c (by omega) hc1 hlo), ?_⟩
+    · simp only [Slice.remove, hguard, if_false, e1, this, nth_cast s n (by omega), Int.toNat_natCast]
+    · have h1 := eq_take_append_last s n hn
+      have p : (nthN s n :: s.take n).Perm (s.take n ++ [nthN s n]) :=
+        List.perm_append_comm (l₁ := [nthN s n]) (l₂ := s.take n)
+      exact p.trans (by rw [← h1])
+  · have hne : (((n : Nat) : Int) ≠ ((i : Nat) : Int)) := by omega
+    have hin : i < n := by omega
+    have hsw := swapL_cast s i n hi (by omega)
+    -- the first `n` positions of the swapped slice: a heap except at `i`
+    have hsame : ∀ k, k < n → k ≠ i → nthN (swapN s i n) k = nthN s k := by
+      intro k hk hki
+      rw [nthN_swapN s i n hi (by omega)]
+      have : k ≠ n := by omega
+      simp [swapF, *]
+    have h0 : HeapOn cmp (nthN s) 0 n := fun c hc hc1 hlo => h c (by omega) hc1 hlo
+    obtain ⟨s2, hrun, hlen2, hperm2, htail, hheap⟩ :=
+      fix_spec hs (swapN s i n) i n (nthN s) (by simp; omega) hin h0 hsame
+    have hlen2' : s2.length = n + 1 := by rw [hlen2]; simp [hn]
+    have hx : nthN s2 n = nthN s i := by
+      rw [htail n (Nat.le_refl _), nthN_swapN s i n hi (by omega)]
+      simp [swapF]
+    refine ⟨s2.take n, ?_, heap_take (by omega) hheap, ?_⟩
+    · simp only [Slice.remove, hguard, if_false, e1, hne, if_true, hsw, hrun,
+        nth_cast s2 n (by omega), hx, Int.toNat_natCast, ne_eq, not_false_eq_true]
+    · have h1 := eq_take_append_last s2 n hlen2'
+      rw [hx] at h1
+      have p : (nthN s i :: s2.take n).Perm (s2.take n ++ [nthN s i]) :=
+        List.perm_append_comm (l₁ := [nthN s i]) (l₂ := s2.take n)
+      exact (p.trans (by rw [← h1])).trans (hperm2.trans (swapN_perm s i n hi (by omega)))
+
+/-- `Fix(i)` out of range: a no-op. -/
+theorem slice_fix_out (cmp : Int → Int → Bool) (s : List Int) (i : Int)
+    (hi : i < 0 ∨ (s.length : Int) ≤ i) : Slice.fix cmp s i = some s := by
+  have : (i < 0 ∨ i ≥ (s.length : Int)) := by omega
+  simp [Slice.fix, this]
+
+/-- `Fix(i)` after `Values[i] = v` on a heap: heap order restored, multiset kept. -/
+theorem slice_fix_in {cmp} (hs : SWO cmp) (s0 : List Int) (i : Nat) (v : Int) (h : Heap cmp s0)
+    (hi : i < s0.length) :
+    ∃ s', Slice.fix cmp (s0.set i v) (i : Int) = some s' ∧ Heap cmp s' ∧ s'.Perm (s0.set i v) := by
+  have hguard : ¬ ((i : Int) < 0 ∨ (i : Int) ≥ ((s0.set i v).length : Int)) := by simp; omega
+  obtain ⟨s', hrun, hlen, hperm, _, hheap⟩ :=
+    fix_spec hs (s0.set i v) i s0.length (nthN s0) (by simp) hi h
+      (fun k _ hki => nthN_set s0 i v k hki)
+  refine ⟨s', ?_, ?_, hperm⟩
+  · simp only [Slice.fix, hguard, if_false]
+    simpa using hrun
+  · have : s'.length = s0.length := by rw [hlen]; simp
+    simpa [Heap, this] using hheap
+
+/-- `PopAll` consumed to the end: yields every element exactly once, in sorted order
+(no later element precedes an earlier one), and empties the heap. -/
+theorem slice_popAll {cmp} (hs : SWO cmp) : ∀ (n : Nat) (s : List Int), s.length = n → Heap cmp s →
+    ∃ xs, Slice.popAll cmp (n + 1) s = some ([], xs) ∧ xs.Perm s ∧
+      xs.Pairwise (fun a b => cmp b a = false) := by
+  intro n
+  induction n with
+  | zero =>
+    intro s hlen _
+    have : s = [] := List.length_eq_zero_iff.1 hlen
+    subst this
+    exact ⟨[], by simp [Slice.popAll, Slice.pop], List.Perm.refl _, List.Pairwise.nil⟩
+  | succ n ih =>
+    intro s hlen h
+    have hne : s ≠ [] := by intro h0; subst h0; simp at hlen
+    obtain ⟨s1, x, hpop, hheap1, hperm1, hmin⟩ := (slice_pop hs s h).2 hne
+    have hlen1 : s1.length = n := by
+      have := hperm1.length_eq; simp at this; omega
+    obtain ⟨xs, hrun, hperm, hsorted⟩ := ih s1 hlen1 hheap1
+    refine ⟨x :: xs, ?_, (List.Perm.cons x hperm).trans hperm1, ?_⟩
+    · rw [Slice.popAll]; simp only [hpop, hrun]
+    · refine List.Pairwise.cons ?_ hsorted
+      intro y hy
+      have : y ∈ s := hperm1.subset (List.mem_cons_of_mem x (hperm.subset hy))
+      exact hmin y this
+
 end Golib.C04
